@@ -299,10 +299,18 @@ _ATOMS = (int, float, str, bytes, bool, type(None), tuple, Direction)
 
 
 def _clone_value(v, memo):
+    """Copy one attribute value.  Every copy made here is entered in the deepcopy memo shared by the whole world clone, so
+    an object reachable under two names (a deque exposed both directly and through a helper object, say) is ONE object in
+    the clone as well."""
     if isinstance(v, _ATOMS) or callable(v):
         return v
-    if isinstance(v, deque):
-        return deque(v, v.maxlen)
+    y = memo.get(id(v))
+    if y is not None:
+        return y
+    if isinstance(v, deque) and all(isinstance(x, _ATOMS) for x in v):
+        y = deque(v, v.maxlen)
+        memo[id(v)] = y
+        return y
     return copy.deepcopy(v, memo)
 
 
@@ -323,7 +331,11 @@ def _clone_future(f: asyncio.Future, futs: Dict[int, asyncio.Future]) -> asyncio
 
 
 def _clone_plain(obj, memo):
+    y = memo.get(id(obj))
+    if y is not None:
+        return y
     n = object.__new__(type(obj))
+    memo[id(obj)] = n
     n.__dict__.update({k: _clone_value(v, memo) for k, v in obj.__dict__.items()})
     return n
 
